@@ -9,7 +9,7 @@ The rules are (file regex, item-name regex, covers, why).  First match wins.  `t
 with risky features (loop / iter / index / unwrap / rec) that ends up `traverse`-only is left for manual review (the
 translator reports it UNCOVERED) unless the rule carries `reviewed=True` together with its justification.
 """
-import json, os, re, sys
+import glob, json, os, re, sys
 
 HERE = os.path.dirname(os.path.abspath(__file__))
 T = "traverse"
@@ -147,10 +147,24 @@ RULES = [
 ]
 
 
+def extra_rules():
+    """per-subsystem rule files translate/hw_rules.d/*.json: lists of [file regex, item-name regex, [covers…]]
+    (model:<Lean def> / harness:<group>); they name single functions and take precedence over RULES."""
+    out = []
+    for f in sorted(glob.glob(os.path.join(HERE, "hw_rules.d", "*.json"))):
+        for ent in json.load(open(f)):
+            out.append(R(ent[0], ent[1], ent[2]))
+    return out
+
+
 def main():
     p = os.path.join(HERE, "handwritten_cover.json")
+    out_p = p
+    if "--out" in sys.argv:            # dry run into another file (sub-system work in progress)
+        out_p = sys.argv[sys.argv.index("--out") + 1]
     table = json.load(open(p))
     n_rule = {}
+    RULES[:0] = extra_rules()
     for key, ent in table["items"].items():
         file, name = key.split("::", 1)
         name = re.sub(r"#\d+$", "", name)
@@ -168,7 +182,7 @@ def main():
             ent["cover"] = ["TODO"]
         k = ",".join(ent["cover"])
         n_rule[k] = n_rule.get(k, 0) + 1
-    json.dump(table, open(p, "w"), indent=1, sort_keys=True)
+    json.dump(table, open(out_p, "w"), indent=1, sort_keys=True)
     for k, v in sorted(n_rule.items(), key=lambda kv: -kv[1])[:60]:
         print(f"{v:4} {k}")
 
